@@ -456,6 +456,27 @@ def mon_c02(tr: Trace) -> list[Violation]:
                         del pending[k]
             elif isinstance(c.tick, (T.TickCancelRun, T.TickTimeout)):
                 pending.clear()
+    # (f) every execution of a step that returned or raised hands its result to the control loop: when the run got stuck
+    #     (nothing runnable, no timer, no terminal event), an execution whose result tick was never processed means what
+    #     it returned was dropped on the way (the run did not "end first": it never ended)
+    if any("stuck: cancelled by harness" in n for n in tr.notes):
+        stuck_call = getattr(tr, "stuck_at", (len(tr.calls), 0))[0]
+        done_execs: dict[tuple, int] = {}
+        for rec in tr.steps:
+            if rec[0] == "exit" and rec[4] != -1.0 and (rec[5].get("status") == "ok" or str(rec[5].get("status", "")).startswith("raise:")):
+                done_execs[(rec[1], repr(rec[2]))] = done_execs.get((rec[1], repr(rec[2])), 0) + 1
+        seen_ticks: dict[tuple, int] = {}
+        for c in tr.calls[:stuck_call]:
+            if c.kind == "reduce" and isinstance(c.tick, T.TickStepResult):
+                ev = c.tick.event
+                key = (c.tick.step_name, repr(("sfe", ev.step_name, getattr(ev.input_event, "uid", None), ev.attempts) if type(ev).__name__ == "StepFailedEvent"
+                                              else getattr(ev, "uid", None)))
+                seen_ticks[key] = seen_ticks.get(key, 0) + 1
+        for key, n in sorted(done_execs.items()):
+            if seen_ticks.get(key, 0) < n and not any(r[0] == "exit" and r[1] == key[0] and repr(r[2]) == key[1] and r[5].get("status") == "cancelled" for r in tr.steps):
+                out.append(Violation("C02/step_result_never_processed", f"step {key[0]} finished {n} execution(s) for input {key[1]} but only {seen_ticks.get(key, 0)} result tick(s) "
+                                     f"reached the reducer before the run got stuck: what it returned was never handed on", _replay(tr)))
+                return out
     # (d) outputs of steps are re-queued exactly once (unless the run ends first)
     for c in _runner_calls(tr):
         if not isinstance(c.tick, T.TickStepResult) or c.error is not None:
